@@ -15,13 +15,17 @@ underlying byte string; a frame `(off, data)` is *consistent* when `data[j] = sr
                   changes nothing that was or will be delivered; an established final size never moves
   flow_limit      data beyond the advertised window gets FLOW_CONTROL_ERROR, nothing delivered changes
   crypto_limits   CRYPTO_BUFFER_EXCEEDED / PROTOCOL_VIOLATION exactly at the crypto stream's limits
+  reader          (ReceiveStream) Read returns the source bytes at the read position, EOF exactly at the
+                  final size, Peek the same bytes without consuming; over every history of frames, resets,
+                  reads, peeks, cancels, shutdown the concatenation of all reads is a source prefix
 -/
 import Uquic.Proofs.SorterPop
+import Uquic.Proofs.StreamOps
 import Uquic.Model.Reassembly.ReceiveStream
 import Uquic.Model.Reassembly.Crypto
 
 namespace Uquic.Props.C03
-open Uquic.Model.Reassembly Uquic.Proofs.Sorter
+open Uquic.Model.Reassembly Uquic.Proofs.Sorter Uquic.Proofs.Stream
 
 /-! ## 1. push refines the abstract received set -/
 
@@ -291,6 +295,62 @@ theorem crypto_accept (s : CryptoStream) (off : Nat) (data : Bytes) (hf : s.fini
 
 theorem crypto_limit_below_offset_space : maxCryptoStreamOffset < maxByteCount := by
   unfold maxCryptoStreamOffset maxByteCount Uquic.Gen.Protocol.MaxCryptoStreamOffset Uquic.Gen.Protocol.MaxByteCount
+  decide
+
+/-! ## 6. what the reader of a ReceiveStream observes -/
+
+/-- `SInv` (Proofs/StreamInv.lean): the sorter invariant; the frame being read is the source segment
+ending at the sorter's read position; nothing was received beyond the flow controller's highest offset; a
+known final offset is that (final) highest offset; `currentFrameIsLast` only once the final offset is
+reached.  It holds for a new stream. -/
+theorem stream_inv_initial (src : Nat → UInt8) (fc : FC) (h0 : fc.highest = 0) : SInv src { fc := fc } :=
+  sinv_init src fc h0
+
+/-- **Read.** From every state satisfying `SInv`, `Read(p)` with `|p| = n`: never panics; returns at most
+`n` bytes and they are exactly the source bytes at the read position; the read position advances by
+exactly that many; the invariant holds again; and `io.EOF` is reported only with the read position at
+the established final offset — end-of-stream exactly at the final size. -/
+theorem read_exact {src : Nat → UInt8} {s : RStream} (h : SInv src s) (n : Nat) :
+    SInv src (s.read n).s ∧ (s.read n).data = srcSeg src s.readPos (s.read n).data.length ∧
+    (s.read n).s.readPos = s.readPos + (s.read n).data.length ∧ (s.read n).data.length ≤ n ∧
+    (s.read n).status ≠ .panic ∧
+    ((s.read n).status = .eof → (s.read n).s.readPos = s.finalOffset ∧ s.finalOffset ≠ maxByteCount) := by
+  obtain ⟨r1, r2, r3, _, r5, r6, r7⟩ := read_spec h n
+  exact ⟨r1, r2, r3, r7, r6, r5⟩
+
+/-- **Peek.** `Peek(b)` never panics, does not move the read position, returns source bytes at the read
+position, and says EOF only when those bytes end at the final offset. -/
+theorem peek_exact {src : Nat → UInt8} {s : RStream} (h : SInv src s) (n : Nat) (hn : 2 * n < maxByteCount) :
+    SInv src (s.peek n).s ∧ (s.peek n).s.readPos = s.readPos ∧
+    (s.peek n).data = srcSeg src s.readPos (s.peek n).data.length ∧ (s.peek n).data.length ≤ n ∧
+    (s.peek n).status ≠ .panic ∧
+    ((s.peek n).status = .eof → s.readPos + (s.peek n).data.length = s.finalOffset) := by
+  have P := peek_stream_spec h n hn
+  exact ⟨P.inv, P.rp, P.data, P.len, P.nopanic, fun he => (P.eof he).1⟩
+
+/-- an accepted consistent STREAM frame keeps the stream invariant and does not move the read position -/
+theorem frame_keeps_invariant {src : Nat → UInt8} {s : RStream} (h : SInv src s) (off len : Nat) (fin : Bool)
+    (cb : Option Nat) (hmax : 2 * (off + len) < maxByteCount)
+    (hok : (s.handleStreamFrame off (srcSeg src off len) fin cb).err = none) :
+    SInv src (s.handleStreamFrame off (srcSeg src off len) fin cb).s ∧
+    (s.handleStreamFrame off (srcSeg src off len) fin cb).s.readPos = s.readPos :=
+  frame_sinv h off len fin cb hmax hok
+
+/-- **reader (all histories).** For every finite sequence of STREAM frames cut from the one source string
+(any order, overlap, duplication, FIN anywhere), RESET_STREAM / RESET_STREAM_AT, reads and peeks of
+arbitrary sizes, CancelRead, closeForShutdown and control-frame pulls, up to the first frame or reset the
+stream rejects: the concatenation of everything `Read` returned is exactly the source prefix
+`src[0, readPos)`; no call panicked; every EOF was reported at the final size; every peek returned the
+bytes at the read position. -/
+theorem stream_reads_source (src : Nat → UInt8) (fc : FC) (h0 : fc.highest = 0) (ops : List StOp)
+    (hops : ∀ op ∈ ops, StInBounds op) :
+    (runSt src fc ops).out = srcSeg src 0 (runSt src fc ops).s.readPos ∧ (runSt src fc ops).good = true ∧
+    ((runSt src fc ops).alive = true → SInv src (runSt src fc ops).s) :=
+  ⟨(runSt_inv src fc h0 ops hops).out, (runSt_inv src fc h0 ops hops).good, (runSt_inv src fc h0 ops hops).inv⟩
+
+/-- a non-trivial stream history: out-of-order frames with FIN, partial reads, a peek, EOF at size 5 -/
+example : (runSt (fun i => UInt8.ofNat (i + 1)) { window := 100, windowSize := 100, conn := { window := 100, windowSize := 100 } }
+    [.frame 3 2 true (some 1), .read 4, .frame 0 3 false (some 2), .peek 2, .read 2, .read 10]).out = [1, 2, 3, 4, 5] := by
   decide
 
 end Uquic.Props.C03
